@@ -266,8 +266,27 @@ struct BtEvent
 // with different patterns must not
 char const* const kLoggerPatterns[3] = {"%(message)", "%(logger)|%(message)", "%(log_level_short_code) %(thread_id) %(message)"};
 
+// C03: a logger on a user-supplied clock that runs ahead of / behind the (virtual) wall clock. Such statements carry no
+// ordering claim and the backend must not hold them back by the grace period: they are delivered like any other statement.
+class SimUserClock final : public quill::UserClockSource
+{
+public:
+  uint64_t now() const override
+  {
+    uint64_t const v = static_cast<uint64_t>(static_cast<int64_t>(sim::core().vclock) + offset_ns);
+    if (sim::Worker* w = sim::tl_worker)
+    {
+      if (w->user_clock_reads_in_op++ == 0) w->first_user_ts_in_op = v;
+    }
+    return v;
+  }
+  int64_t offset_ns{0};
+};
+SimUserClock g_user_clocks[4];
+
 struct LoggerInfo
 {
+  bool user_clock{false};   // statements carry the value of g_user_clocks[..] instead of the wall clock
   std::string name;
   SLogger* ptr{nullptr};
   std::vector<int> sinks;
